@@ -9,10 +9,6 @@ moving entry written into the hole: every loop iteration is then a swap of two c
 namespace AlgoVerif.C04
 variable {K V : Type}
 
-@[simp] theorem obind_ok {α β : Type} (a : α) (f : α → Outcome β) : obind (.ok a) f = f a := rfl
-@[simp] theorem obind_panic {α β : Type} (f : α → Outcome β) : obind .panic f = .panic := rfl
-@[simp] theorem obind_diverge {α β : Type} (f : α → Outcome β) : obind .diverge f = .diverge := rfl
-
 /-- the cell at index `i` (`none` also when `i` is out of range) -/
 def cellAt (a : Array (Cell K V)) (i : Nat) : Cell K V := (a[i]?).join
 
@@ -196,11 +192,6 @@ theorem swim_spec {cmp : K → K → Int} (hc : LawfulCmp cmp) (key : K) (val : 
     · simp only [hk, if_false]
       exact ⟨heap, k, rfl, hk1, hkn, rfl, hsh, fun i hi2 hin => hed i hi2 hin (by omega), List.Perm.refl _⟩
 
-
-theorem LawfulCmp.refl {cmp : K → K → Int} (hc : LawfulCmp cmp) (a : K) : cmp a a ≤ 0 := by
-  by_cases h : 0 ≤ cmp a a
-  · exact hc.sign _ _ h
-  · omega
 
 /-- the child selection of the sink loop: `if j < n && cmp(heap[j+1], heap[j]) < 0 { j++ }` -/
 theorem sink_pick {cmp : K → K → Int} (hc : LawfulCmp cmp) (heap : Array (Cell K V)) (n j : Nat) (b : K × V)
@@ -430,9 +421,9 @@ theorem cellAt_resize (a : Array (Cell K V)) (m t : Nat) :
   · rw [if_pos h]
     by_cases h2 : t < a.size
     · rw [if_pos (by omega), if_pos h]
-    · rw [if_neg (by omega), if_pos (by omega), Array.getElem?_eq_none (by omega)]; rfl
+    · rw [if_neg (by omega), if_pos (by omega), Array.getElem?_eq_none (by omega)]; simp
   · rw [if_neg h]
-    rw [if_neg (by omega), if_neg (by omega)]; rfl
+    rw [if_neg (by omega), if_neg (by omega)]; simp [h]
 
 theorem size_resize (a : Array (Cell K V)) (m : Nat) : (resize a m).size = m := by
   unfold resize; simp; omega
@@ -453,5 +444,320 @@ theorem cells_resize (a : Array (Cell K V)) (m : Nat) (h : ∀ t, m ≤ t → ce
     unfold cellAt at this; rw [hi] at this; simpa using this
   rw [h1, List.append_nil]
   conv => rhs; rw [← List.take_append_drop m a.toList, List.filterMap_append, h2, List.append_nil]
+
+
+/-! ### the invariant of the binary heap and the abstraction function -/
+
+structure BInv (cmp : K → K → Int) (h : Binary K V) : Prop where
+  shape : Shape h.heap h.n
+  ord : ∀ i, 2 ≤ i → i ≤ h.n → Edge cmp h.heap (i / 2) i
+  len : (cells h.heap).length = h.n
+
+/-- the multiset held by a binary heap -/
+def Binary.abs (h : Binary K V) : Bag K V := cells h.heap
+
+theorem cellAt_replicate (m t : Nat) : cellAt (Array.replicate m (none : Cell K V)) t = none := by
+  unfold cellAt
+  rw [Array.getElem?_replicate]
+  split <;> rfl
+
+theorem cells_replicate (m : Nat) : cells (Array.replicate m (none : Cell K V)) = [] := by
+  unfold cells
+  rw [List.filterMap_eq_nil_iff]
+  intro x hx
+  rw [Array.toList_replicate] at hx
+  rw [List.eq_of_mem_replicate hx]; rfl
+
+theorem BInv_new (cmp : K → K → Int) (size : Nat) : BInv cmp (Binary.new size : Binary K V) := by
+  refine ⟨⟨by simp [Binary.new], ?_, ?_⟩, ?_, ?_⟩
+  · intro i h1 h2; simp [Binary.new] at h2; omega
+  · intro i _; exact cellAt_replicate _ _
+  · intro i h1 h2; simp [Binary.new] at h2; omega
+  · simp [Binary.new, cells_replicate]
+
+theorem abs_new (size : Nat) : (Binary.new size : Binary K V).abs = [] := by
+  simp [Binary.abs, Binary.new, cells_replicate]
+
+/-- every cell of a heap-ordered array is above-or-equal the root -/
+theorem root_le {cmp : K → K → Int} (hc : LawfulCmp cmp) (a : Array (Cell K V)) (n : Nat) (hsh : Shape a n)
+    (hord : ∀ i, 2 ≤ i → i ≤ n → Edge cmp a (i / 2) i) (e : K × V) (he : cellAt a 1 = some e) :
+    ∀ i, 1 ≤ i → i ≤ n → ∀ x, cellAt a i = some x → cmp e.1 x.1 ≤ 0 := by
+  intro i
+  induction i using Nat.strongRecOn with
+  | _ i ih =>
+    intro h1 hn x hx
+    by_cases hi : i = 1
+    · subst hi; rw [he] at hx; cases hx; exact hc.refl _
+    · obtain ⟨p, hp⟩ := hsh.some_ (i / 2) (by omega) (by omega)
+      exact hc.trans _ _ _ (ih (i / 2) (by omega) (by omega) (by omega) p hp) (hord i (by omega) hn p x hp hx)
+
+theorem root_extremal {cmp : K → K → Int} (hc : LawfulCmp cmp) (a : Array (Cell K V)) (n : Nat) (hsh : Shape a n)
+    (hord : ∀ i, 2 ≤ i → i ≤ n → Edge cmp a (i / 2) i) (e : K × V) (he : cellAt a 1 = some e) :
+    Extremal cmp (cells a) e.1 := by
+  intro p hp
+  obtain ⟨i, hi⟩ := (mem_cells a p).mp hp
+  by_cases h : i = 0 ∨ n < i
+  · rw [hsh.none_ i h] at hi; cases hi
+  · exact root_le hc a n hsh hord e he i (by omega) (by omega) p hi
+
+theorem Binary.insert_spec {cmp : K → K → Int} (hc : LawfulCmp cmp) (h : Binary K V) (hinv : BInv cmp h) (k : K) (v : V) :
+    ∃ h', h.insert cmp k v = .ok h' ∧ BInv cmp h' ∧ h'.abs.Perm ((k, v) :: h.abs) := by
+  obtain ⟨hsh, hord, hlen⟩ := hinv
+  -- the array after the optional resize
+  have h0 : ∃ heap0 : Array (Cell K V),
+      (if h.n + 1 = h.heap.size then resize h.heap (h.heap.size * 2) else h.heap) = heap0 ∧
+      h.n + 1 < heap0.size ∧ (∀ t, cellAt heap0 t = cellAt h.heap t) ∧ cells heap0 = cells h.heap := by
+    by_cases hfull : h.n + 1 = h.heap.size
+    · refine ⟨_, rfl, ?_, ?_, ?_⟩
+      · rw [if_pos hfull, size_resize]; omega
+      · intro t; rw [if_pos hfull, cellAt_resize]
+        by_cases ht : t < h.heap.size * 2
+        · rw [if_pos ht]
+        · rw [if_neg ht, cellAt_of_size_le _ _ (by omega)]
+      · rw [if_pos hfull]; exact cells_resize _ _ (fun t ht => cellAt_of_size_le _ _ (by omega))
+    · have := hsh.size
+      exact ⟨_, rfl, by rw [if_neg hfull]; omega, by intro t; rw [if_neg hfull], by rw [if_neg hfull]⟩
+  obtain ⟨heap0, hheap0, hsz0, hcell0, hcells0⟩ := h0
+  unfold Binary.insert
+  simp only [hheap0]
+  have hA : ∀ t, cellAt (heap0.setIfInBounds (h.n + 1) (some (k, v))) t =
+      if h.n + 1 = t then some (k, v) else cellAt h.heap t := by
+    intro t; rw [cellAt_set _ _ _ _ hsz0, hcell0]
+  obtain ⟨heap', k', hrun, hk1, hk2, hsz', hsh', hord', hperm⟩ :=
+    swim_spec hc k v (h.n + 1) (h.n + 1 + 1) heap0 (h.n + 1) (Nat.le_refl _) (by omega) (Nat.le_refl _)
+      (by
+        refine ⟨by simpa using hsz0, ?_, ?_⟩
+        · intro i hi1 hin
+          rw [hA]
+          by_cases hi : h.n + 1 = i
+          · rw [if_pos hi]; exact ⟨_, rfl⟩
+          · rw [if_neg hi]; exact hsh.some_ i hi1 (by omega)
+        · intro i hi
+          rw [hA, if_neg (by omega)]
+          exact hsh.none_ i (by omega))
+      (by
+        intro i hi2 hin hik p q hp hq
+        rw [hA, if_neg (by omega)] at hp
+        rw [hA, if_neg (fun h => hik h.symm)] at hq
+        exact hord i hi2 (by omega) p q hp hq)
+      (by intro c _ hc2 hcn; omega)
+  rw [hrun, obind_ok]
+  simp only []
+  rw [if_pos (by omega)]
+  have hperm2 : (cells (heap0.setIfInBounds (h.n + 1) (some (k, v)))).Perm ((k, v) :: cells h.heap) := by
+    have := cells_set heap0 (h.n + 1) (some (k, v)) hsz0
+    rw [hcell0, hsh.none_ (h.n + 1) (by omega), hcells0] at this
+    simpa using this
+  refine ⟨_, rfl, ⟨hsh', hord', ?_⟩, hperm.trans hperm2⟩
+  have := (hperm.trans hperm2).length_eq
+  simp at this; simp; omega
+
+
+theorem abs_nil_of_n_zero {cmp : K → K → Int} (h : Binary K V) (hinv : BInv cmp h) (hn : h.n = 0) : h.abs = [] := by
+  have := hinv.len
+  rw [hn] at this
+  exact List.eq_nil_of_length_eq_zero this
+
+theorem Binary.delete_spec {cmp : K → K → Int} (hc : LawfulCmp cmp) (h : Binary K V) (hinv : BInv cmp h) (hn : h.n ≠ 0) :
+    ∃ h' e, h.delete cmp = .ok (h', some e) ∧ BInv cmp h' ∧ Extremal cmp h.abs e.1 ∧ h.abs.Perm (e :: h'.abs) := by
+  obtain ⟨hsh, hord, hlen⟩ := hinv
+  have hsz := hsh.size
+  obtain ⟨e, he⟩ := hsh.some_ 1 (Nat.le_refl _) (by omega)
+  obtain ⟨q, hq⟩ := hsh.some_ h.n (by omega) (Nat.le_refl _)
+  unfold Binary.delete
+  rw [if_neg hn, getElem?_of_cellAt _ 1 (by omega), getElem?_of_cellAt _ h.n hsz, he, hq]
+  simp only []
+  have hn1 : h.n - 1 + 1 = h.n := by omega
+  have hC : ∀ t, cellAt (virt h.heap 1 q (h.n - 1)) t =
+      if h.n = t then none else if 1 = t then some q else cellAt h.heap t := by
+    intro t; rw [cellAt_virt _ _ _ _ _ (by omega) (by omega), hn1]
+  obtain ⟨heap', k', hrun, hk1, hk2, hsz', hsh', hord', hperm⟩ :=
+    sink_spec hc q (h.n - 1) (h.n - 1 + 2) h.heap 1 (by omega) (by omega) (Nat.le_refl _) (by omega) (by omega)
+      (by
+        refine ⟨by simp [virt]; omega, ?_, ?_⟩
+        · intro i hi1 hin
+          rw [hC, if_neg (by omega)]
+          by_cases hi : 1 = i
+          · rw [if_pos hi]; exact ⟨_, rfl⟩
+          · rw [if_neg hi]; exact hsh.some_ i hi1 (by omega)
+        · intro i hi
+          rw [hC]
+          by_cases hi' : h.n = i
+          · rw [if_pos hi']
+          · rw [if_neg hi', if_neg (by omega)]
+            exact hsh.none_ i (by omega))
+      (by
+        intro i hi2 hin hik p x hp hx
+        rw [hC, if_neg (by omega), if_neg (fun h => hik h.symm)] at hp
+        rw [hC, if_neg (by omega), if_neg (by omega)] at hx
+        exact hord i hi2 (by omega) p x hp hx)
+      (by intro c h2; omega)
+  have hrun' : Binary.sink cmp (some q) (h.n - 1) (h.n - 1 + 2) h.heap 1 2 = .ok (heap', k') := hrun
+  rw [hrun', obind_ok]
+  simp only []
+  have hk's : k' < heap'.size := by omega
+  rw [if_pos hk's, if_pos (by simp; omega)]
+  -- the array after `heap[k] = kv; heap[n+1] = nil`
+  have hvirt : (heap'.setIfInBounds k' (some q)).setIfInBounds (h.n - 1 + 1) none = virt heap' k' q (h.n - 1) := rfl
+  rw [hvirt]
+  -- abstract state before = ext :: abstract state of the virtual start array
+  have hperm0 : (cells h.heap).Perm (e :: cells (virt h.heap 1 q (h.n - 1))) := by
+    have s1 := cells_set h.heap 1 (some q) (by omega)
+    rw [he] at s1
+    have s2 := cells_set (h.heap.setIfInBounds 1 (some q)) (h.n - 1 + 1) none (by simp; omega)
+    have hq' : cellAt (h.heap.setIfInBounds 1 (some q)) (h.n - 1 + 1) = some q := by
+      rw [cellAt_set _ _ _ _ (by omega), hn1]
+      by_cases h1 : 1 = h.n
+      · rw [if_pos h1]
+      · rw [if_neg h1, hq]
+    rw [hq'] at s2
+    -- s1 : e :: cells H1 ~ q :: cells H ; s2 : q :: cells C0 ~ cells H1
+    have s1' : ([e] ++ cells (h.heap.setIfInBounds 1 (some q))).Perm ([q] ++ cells h.heap) := by simpa using s1
+    have s2' : ([q] ++ cells (virt h.heap 1 q (h.n - 1))).Perm (cells (h.heap.setIfInBounds 1 (some q))) := by
+      simpa [virt] using s2
+    have s3 : (q :: e :: cells (virt h.heap 1 q (h.n - 1))).Perm (q :: cells h.heap) :=
+      ((List.Perm.swap e q _).trans ((List.perm_cons e).mpr s2')).trans s1'
+    exact ((List.perm_cons q).mp s3).symm
+  have hext : Extremal cmp (cells h.heap) e.1 := root_extremal hc h.heap h.n hsh hord e he
+  have hfin : h.abs.Perm (e :: cells (virt heap' k' q (h.n - 1))) :=
+    hperm0.trans ((List.perm_cons e).mpr hperm.symm)
+  have hlen' : (cells (virt heap' k' q (h.n - 1))).length = h.n - 1 := by
+    have := hfin.length_eq
+    simp [Binary.abs] at this; omega
+  by_cases hshrink : h.n - 1 < (virt heap' k' q (h.n - 1)).size / 4
+  · rw [if_pos hshrink]
+    have hcut : ∀ t, (virt heap' k' q (h.n - 1)).size / 2 ≤ t → cellAt (virt heap' k' q (h.n - 1)) t = none :=
+      fun t ht => hsh'.none_ t (by omega)
+    have hhalf : h.n - 1 < (virt heap' k' q (h.n - 1)).size / 2 := by omega
+    refine ⟨_, e, rfl, ⟨⟨by rw [size_resize]; exact hhalf, ?_, ?_⟩, ?_, ?_⟩, hext, ?_⟩
+    · intro i hi1 hin
+      dsimp only at hin ⊢
+      rw [cellAt_resize, if_pos (by omega)]
+      exact hsh'.some_ i hi1 hin
+    · intro i hi
+      dsimp only at hi ⊢
+      rw [cellAt_resize]
+      split
+      · exact hsh'.none_ i hi
+      · rfl
+    · intro i hi2 hin p x hp hx
+      dsimp only at hin hp hx
+      rw [cellAt_resize, if_pos (by omega)] at hp hx
+      exact hord' i hi2 hin p x hp hx
+    · show (cells (resize _ _)).length = _
+      rw [cells_resize _ _ hcut]; exact hlen'
+    · show h.abs.Perm (e :: cells (resize _ _))
+      rw [cells_resize _ _ hcut]; exact hfin
+  · rw [if_neg hshrink]
+    exact ⟨_, e, rfl, ⟨hsh', hord', hlen'⟩, hext, hfin⟩
+
+
+theorem scan_spec (p : K × V → Bool) (a : Array (Cell K V)) (n : Nat) (hsh : Shape a n) :
+    ∀ (fuel k : Nat), 1 ≤ k → k ≤ n + 1 → n + 2 ≤ fuel + k →
+      ∃ b, Binary.scan p a n fuel k = .ok b ∧
+        (b = true ↔ ∃ i x, k ≤ i ∧ i ≤ n ∧ cellAt a i = some x ∧ p x = true) := by
+  intro fuel
+  induction fuel with
+  | zero => intro k h1 h2 h3; omega
+  | succ fuel ih =>
+    intro k h1 h2 h3
+    unfold Binary.scan
+    by_cases hk : k ≤ n
+    · rw [if_pos hk]
+      obtain ⟨x, hx⟩ := hsh.some_ k h1 hk
+      rw [deref_of_cellAt _ _ _ hx, obind_ok]
+      by_cases hp : p x = true
+      · rw [if_pos hp]
+        exact ⟨true, rfl, by simp; exact ⟨k, Nat.le_refl _, hk, x.1, x.2, hx, hp⟩⟩
+      · rw [if_neg hp]
+        obtain ⟨b, hb, hiff⟩ := ih (k + 1) (by omega) (by omega) (by omega)
+        refine ⟨b, hb, hiff.trans ⟨?_, ?_⟩⟩
+        · rintro ⟨i, y, g1, g2, g3, g4⟩; exact ⟨i, y, by omega, g2, g3, g4⟩
+        · rintro ⟨i, y, g1, g2, g3, g4⟩
+          by_cases hik : i = k
+          · rw [hik, hx] at g3; cases g3; exact absurd g4 hp
+          · exact ⟨i, y, by omega, g2, g3, g4⟩
+    · rw [if_neg hk]
+      exact ⟨false, rfl, by simp; intro i hi1 hi2; omega⟩
+
+theorem contains_spec (p : K × V → Bool) (h : Binary K V) (hsh : Shape h.heap h.n) :
+    Binary.scan p h.heap h.n (h.n + 1) 1 = .ok (h.abs.any p) := by
+  obtain ⟨b, hb, hiff⟩ := scan_spec p h.heap h.n hsh (h.n + 1) 1 (Nat.le_refl _) (by omega) (by omega)
+  rw [hb]
+  congr 1
+  rw [Bool.eq_iff_iff, hiff, List.any_eq_true]
+  constructor
+  · rintro ⟨i, x, _, _, hx, hp⟩
+    exact ⟨x, (mem_cells _ _).mpr ⟨i, hx⟩, hp⟩
+  · rintro ⟨x, hx, hp⟩
+    obtain ⟨i, hi⟩ := (mem_cells _ _).mp hx
+    by_cases hout : i = 0 ∨ h.n < i
+    · rw [hsh.none_ i hout] at hi; cases hi
+    · exact ⟨i, x, by omega, by omega, hi, hp⟩
+
+/-- every operation of the binary heap succeeds, keeps the invariant and is admitted by the Spec -/
+theorem Binary.step_spec {cmp : K → K → Int} (hc : LawfulCmp cmp) (eqV : V → V → Bool) (h : Binary K V)
+    (hinv : BInv cmp h) (op : Op K V) :
+    ∃ h' out, Binary.step cmp eqV h op = .ok (h', out) ∧ BInv cmp h' ∧ Step cmp eqV h.abs op out h'.abs := by
+  cases op with
+  | insert k v =>
+    obtain ⟨h', hrun, hinv', hperm⟩ := Binary.insert_spec hc h hinv k v
+    exact ⟨h', .unit, by simp [Binary.step, hrun], hinv', hperm⟩
+  | delete =>
+    by_cases hn : h.n = 0
+    · refine ⟨h, .kv none, by simp [Binary.step, Binary.delete, hn], hinv, ?_⟩
+      have := abs_nil_of_n_zero h hinv hn
+      exact ⟨this, this⟩
+    · obtain ⟨h', e, hrun, hinv', hext, hperm⟩ := Binary.delete_spec hc h hinv hn
+      exact ⟨h', .kv (some e), by simp [Binary.step, hrun], hinv', hext, hperm⟩
+  | deleteAll =>
+    refine ⟨h.deleteAll, .unit, rfl, ?_, ?_⟩
+    · refine ⟨⟨?_, ?_, ?_⟩, ?_, ?_⟩
+      · have := hinv.shape.size; simp [Binary.deleteAll]; omega
+      · intro i h1 h2; simp [Binary.deleteAll] at h2; omega
+      · intro i _; exact cellAt_replicate _ _
+      · intro i h1 h2; simp [Binary.deleteAll] at h2; omega
+      · simp [Binary.deleteAll, cells_replicate]
+    · show cells _ = []
+      simp [Binary.deleteAll, cells_replicate]
+  | peek =>
+    by_cases hn : h.n = 0
+    · refine ⟨h, .kv none, by simp [Binary.step, Binary.peek, hn], hinv, ?_⟩
+      have := abs_nil_of_n_zero h hinv hn
+      exact ⟨this, this⟩
+    · obtain ⟨e, he⟩ := hinv.shape.some_ 1 (Nat.le_refl _) (by omega)
+      refine ⟨h, .kv (some e), by simp [Binary.step, Binary.peek, hn, deref_of_cellAt _ _ _ he], hinv, ?_, ?_, List.Perm.refl _⟩
+      · exact (mem_cells _ _).mpr ⟨1, he⟩
+      · exact root_extremal hc h.heap h.n hinv.shape hinv.ord e he
+  | size =>
+    refine ⟨h, .int h.n, rfl, hinv, ?_, List.Perm.refl _⟩
+    have := hinv.len
+    show (h.n : Int) = ((cells h.heap).length : Int)
+    rw [this]
+  | isEmpty =>
+    refine ⟨h, .bool (h.n == 0), rfl, hinv, ?_, List.Perm.refl _⟩
+    have := hinv.len
+    show (h.n == 0) = (cells h.heap).isEmpty
+    cases hc' : cells h.heap with
+    | nil => simp [hc'] at this; simp [← this]
+    | cons x xs => simp [hc'] at this; simp [← this]
+  | containsKey k =>
+    refine ⟨h, .bool (h.abs.any fun a => cmp a.1 k == 0), ?_, hinv, rfl, List.Perm.refl _⟩
+    simp [Binary.step, Binary.containsKey, contains_spec _ h hinv.shape]
+  | containsValue v =>
+    refine ⟨h, .bool (h.abs.any fun a => eqV a.2 v), ?_, hinv, rfl, List.Perm.refl _⟩
+    simp [Binary.step, Binary.containsValue, contains_spec _ h hinv.shape]
+
+theorem binary_admitted {cmp : K → K → Int} (hc : LawfulCmp cmp) (eqV : V → V → Bool) :
+    ∀ (ops : List (Op K V)) (h : Binary K V), BInv cmp h →
+      Admitted1 cmp eqV h.abs ops (run1 (Binary.step cmp eqV) h ops) := by
+  intro ops
+  induction ops with
+  | nil => intro h _; simp [run1, Admitted1]
+  | cons op ops ih =>
+    intro h hinv
+    obtain ⟨h', out, hrun, hinv', hstep⟩ := Binary.step_spec hc eqV h hinv op
+    simp only [run1, hrun, Admitted1]
+    exact ⟨h'.abs, hstep, ih h' hinv'⟩
 
 end AlgoVerif.C04
